@@ -253,6 +253,7 @@ class ReAuthRequest(ReAuth):
         setattr(self, "proxy_info", [])
         setattr(self, "route_record", [])
         setattr(self, "framed_ipv6_prefix", [])
+        setattr(self, "state_class", [])
         setattr(self, "reply_message", [])
         setattr(self, "charging_rule_install", [])
         setattr(self, "charging_rule_remove", [])
